@@ -1,6 +1,7 @@
 """Observation layer: step-wise driver, process wrappers, digests, rejection classification."""
 import contextlib
 import hashlib
+import os
 import sys
 import traceback
 
@@ -202,17 +203,35 @@ def instrument(trace, capture=()):
             setattr(mod, name, orig)
 
 
+INIT_GUARD_STATS = {"max_calls": 0, "max_lines": 0}
+
+
 @contextlib.contextmanager
-def init_guard(limit=3_000_000):
-    """Detect non-termination of model initialisation (profile-deepening loop) without a timeout:
-    a deterministic budget of Python-level function calls (a normal initialisation makes ~3e4)."""
-    state = {"n": 0}
+def init_guard(limit=3_000_000, line_limit=10_000_000):
+    """Detect non-termination of model initialisation (profile-deepening loop, harvest-index
+    coefficient iteration) without a timeout: a deterministic budget of Python-level function calls
+    (a normal initialisation makes ~3e4) and of executed source lines inside the aquacrop package
+    (a loop that only calls C functions makes no call events)."""
+    state = {"n": 0, "lines": 0}
+    pkg = os.path.join(os.path.dirname(os.path.abspath(__import__("aquacrop").__file__)), "")
+
+    def local(frame, event, arg):
+        if event == "line":
+            state["lines"] += 1
+            if state["lines"] > line_limit:
+                sys.settrace(None)
+                raise NoProgress("model initialisation executed more than %d source lines of the package "
+                                 "(a normal one needs < 1e5): no progress in %s:%s"
+                                 % (line_limit, os.path.basename(frame.f_code.co_filename), frame.f_code.co_name))
+        return local
 
     def tracer(frame, event, arg):
         state["n"] += 1
         if state["n"] > limit:
             sys.settrace(None)
             raise NoProgress("model initialisation exceeded %d function calls (a normal one needs ~3e4): no progress" % limit)
+        if frame.f_code.co_filename.startswith(pkg):
+            return local
         return None
 
     old = sys.gettrace()
@@ -221,6 +240,8 @@ def init_guard(limit=3_000_000):
         yield
     finally:
         sys.settrace(old)
+        INIT_GUARD_STATS["max_calls"] = max(INIT_GUARD_STATS["max_calls"], state["n"])
+        INIT_GUARD_STATS["max_lines"] = max(INIT_GUARD_STATS["max_lines"], state["lines"])
 
 
 def initialize(model):
